@@ -35,6 +35,7 @@ use syn::spanned::Spanned;
 use syn::*;
 
 mod t6w;
+mod t6r;
 
 const FEATURES: &[&str] = &["aes-crypto", "bzip2", "deflate", "time", "zstd"];
 
@@ -186,6 +187,8 @@ struct Tr<'a> {
     skip_tuple: bool,
     /// S mode (t6w.rs): aliases of parts of `self`
     s: t6w::SState,
+    /// READ mode: the reader is an owned parameter (`mut reader: R`), callees get `&mut reader`
+    reader_owned: bool,
 }
 
 fn path_last(p: &Path) -> String {
@@ -288,7 +291,7 @@ impl<'r, 'ast> syn::visit::Visit<'ast> for AssignedVars<'r> {
     }
     fn visit_expr_method_call(&mut self, m: &'ast ExprMethodCall) {
         let name = m.method.to_string();
-        let mutating = name.starts_with("read_")
+        let mutating = name.starts_with("read_") || name == "push" || name == "insert"
             || self.reg.methods.iter().any(|(k, i)| k.ends_with(&format!("::{name}")) && i.mut_self && i.fi.mode != Mode::S);
         if mutating {
             if let Some(n) = path_ident(&m.receiver) {
@@ -485,6 +488,7 @@ impl<'a> Tr<'a> {
             nontail_sub: 0,
             skip_tuple: false,
             s: t6w::SState::default(),
+            reader_owned: false,
         }
     }
 
@@ -630,6 +634,7 @@ impl<'a> Tr<'a> {
                         }
                     } else {
                         let first = p.path.segments[p.path.segments.len() - 2].ident.to_string();
+                        let first = if first == "Self" { self.self_ty.clone().unwrap_or_default() } else { first };
                         if let Some(mi) = self.reg.methods.get(&format!("{first}::{name}")) {
                             return wrap(&mi.fi);
                         }
@@ -712,8 +717,10 @@ impl<'a> Tr<'a> {
                     "Result" => Ok(format!("(Except {} {})", self.ty(args[1])?, self.ty(args[0])?)),
                     "Vec" => {
                         let e = self.ty(args[0])?;
-                        if e == "UInt8" { Ok("Bytes".into()) } else { Err(format!("Vec of {e}")) }
+                        if e == "UInt8" { Ok("Bytes".into()) } else { Ok(format!("(Rs.Vec {e})")) }
                     }
+                    "HashMap" if args.len() == 2 => Ok(format!("(Rs.HashMap {} {})", self.ty(args[0])?, self.ty(args[1])?)),
+                    "Arc" if args.len() == 1 => self.ty(args[0]),
                     "String" | "str" => Ok("Bytes".into()),
                     n if self.reg.enums.contains_key(n) || self.reg.structs.contains(n) => Ok(format!("Gen.{n}")),
                     n => Err(format!("unsupported type {n}")),
@@ -935,6 +942,10 @@ impl<'a> Tr<'a> {
                                     syn::visit::Visit::visit_expr(&mut u, &f.expr);
                                     let mut eff = HasEffect { found: false };
                                     syn::visit::Visit::visit_expr(&mut eff, &f.expr);
+                                    if self.reader_owned && matches!(&f.expr, Expr::Path(_)) && path_ident(&f.expr) == self.reader {
+                                        // the owned reader is moved into the result: no effect
+                                        continue;
+                                    }
                                     if eff.found || u.out.iter().any(|x| Some(x) == self.reader.as_ref() || Some(x) == self.writer.as_ref() || self.mut_vars.contains(x)) {
                                         return Err(format!("initialiser of the dropped field `{n}` may have an effect"));
                                     }
@@ -1549,6 +1560,9 @@ impl<'a> Tr<'a> {
                 }
             }
         }
+        if let Some(r) = self.t6r_call(&first, &name, c, exp.clone())? {
+            return Ok(r);
+        }
         let _ = exp;
         let args: R<Vec<String>> = c.args.iter().map(|a| self.expr(a)).collect();
         let args = args?;
@@ -1693,6 +1707,9 @@ impl<'a> Tr<'a> {
             return Err("unsupported `.any`".into());
         }
         let exp = self.expect.take();
+        if let Some(r) = self.t6r_method(m)? {
+            return Ok(r);
+        }
         // integer.try_into() : the target type comes from the context
         if name == "try_into" && m.args.is_empty() {
             let t = exp.filter(|t| int_ty(t)).ok_or("try_into without a known integer target type")?;
@@ -1748,6 +1765,7 @@ impl<'a> Tr<'a> {
             "into_owned" if self.mode == Mode::R => return Ok(recv),
             "from_cp437" if self.mode == Mode::R && args.is_empty() => return Ok(format!("(Rs.fromCp437 {recv})")),
             "is_ok" if self.mode == Mode::R && args.is_empty() => return Ok(format!("(Except.isOk {recv})")),
+            "is_err" if self.mode == Mode::R && args.is_empty() => return Ok(format!("(!(Except.isOk {recv}))")),
             "iter" | "clone" | "as_bytes" | "into_iter" | "as_slice" | "to_vec" => return Ok(recv),
             "len" => return Ok(format!("(Rs.len {recv})")),
             "is_empty" if rt.as_deref() == Some("Bytes") => return Ok(format!("(Rs.isEmpty {recv})")),
@@ -2149,7 +2167,7 @@ impl<'a> Tr<'a> {
         let mut args = vec![];
         for (k, a) in c.args.iter().enumerate() {
             if Some(k) == fi.writer_idx {
-                if self.reader.is_none() || path_ident(a) != self.reader {
+                if !self.is_reader_arg(a) {
                     return Err(format!("reader argument of {key}"));
                 }
                 if fi.seek && !self.seekable {
@@ -2315,6 +2333,9 @@ impl<'a> Tr<'a> {
                 // typed mode: declared type, else the evident type of the initialiser, else (for an
                 // untyped literal) the first use that fixes it
                 let mut t = ty.clone().or_else(|| self.type_of(&init.expr));
+                if t.is_none() {
+                    t = self.coll_local_type(&name, &init.expr);
+                }
                 if t.is_none() && untyped_int_lit(&init.expr) {
                     let rest = self.rest.clone();
                     let mut v = FirstTypedUse { tr: self, name: name.clone(), found: None };
@@ -2598,6 +2619,7 @@ impl<'a> Tr<'a> {
                 self.rest = outer_rest;
                 Ok(())
             }
+            Expr::ForLoop(f) if self.mode == Mode::R => self.t6r_for_range(f),
             Expr::ForLoop(f) => {
                 let var = match &*f.pat {
                     Pat::Ident(id) => id.ident.to_string(),
@@ -3084,7 +3106,8 @@ fn sig_info(tr: &Tr, sig: &Signature, impl_generics: Option<&Generics>) -> R<(Fn
         if sig.generics.params.is_empty() && ig.where_clause.is_none() {
             for g in &ig.params {
                 if let GenericParam::Type(tp) = g {
-                    let used = sig.inputs.iter().any(|a| matches!(a, FnArg::Typed(t) if matches!(&*t.ty, Type::Reference(r) if r.mutability.is_some() && matches!(&*r.elem, Type::Path(p) if p.path.is_ident(&tp.ident)))));
+                    let used = sig.inputs.iter().any(|a| matches!(a, FnArg::Typed(t) if matches!(&*t.ty, Type::Reference(r) if r.mutability.is_some() && matches!(&*r.elem, Type::Path(p) if p.path.is_ident(&tp.ident)))))
+                        || t6r::owned_reader(sig, impl_generics).is_some();
                     if used {
                         own.push(g);
                     }
@@ -3124,6 +3147,18 @@ fn sig_info(tr: &Tr, sig: &Signature, impl_generics: Option<&Generics>) -> R<(Fn
     let mut k = 0;
     for a in &sig.inputs {
         if let FnArg::Typed(t) = a {
+            if let (Some(tp), Type::Path(p), true) = (&tparam, &*t.ty, read) {
+                // the reader by value (`mut reader: R`)
+                if p.path.is_ident(tp.as_str()) {
+                    if writer_idx.is_some() {
+                        return Err("writer parameter".into());
+                    }
+                    writer_idx = Some(k);
+                    if let Pat::Ident(id) = &*t.pat {
+                        writer_name = Some(id.ident.to_string());
+                    }
+                }
+            }
             if let (Some(tp), Type::Reference(r)) = (&tparam, &*t.ty) {
                 if let Type::Path(p) = &*r.elem {
                     if p.path.is_ident(tp.as_str()) {
@@ -3206,6 +3241,7 @@ fn translate_fn(reg: &Registry, failed: &HashSet<String>, self_ty: Option<&str>,
         _ => tr.writer = writer_name,
     }
     tr.seekable = fi.seek;
+    tr.reader_owned = fi.mode == Mode::R && t6r::owned_reader(sig, impl_generics).is_some();
     tr.lean_name = lean_name.to_string();
     {
         let mut binders = String::from("{ω : Type}");
@@ -3785,6 +3821,9 @@ fn main() {
         }
         if fo.body.contains("Rs.S.") {
             writeln!(text, "import ZipVerif.Basic.RsS").unwrap();
+        }
+        if fo.body.contains("Rs.Vec") || fo.body.contains("Rs.HashMap") || fo.body.contains("Rs.R.forRange") || fo.body.contains("Rs.Arc") {
+            writeln!(text, "import ZipVerif.Basic.RsGlue").unwrap();
         }
         for i in &fo.imports { writeln!(text, "import ZipVerif.Gen.{i}").unwrap(); }
         writeln!(text, "/- GENERATED by rs2lean from /repo/src/{} on every check run. Do not edit. -/", f.rs).unwrap();
